@@ -28,7 +28,7 @@ for sid in ids:
         for cd, cn, ft in [("zcash_client_backend", "zcash_client_backend", " --features orchard,transparent-inputs,unstable-spanning-tree"),
                            ("zcash_primitives", "zcash_primitives", ""), ("zcash_history", "zcash_history", ""),
                            ("zcash_pool_migration", "zcash_pool_migration", ""), ("components/zcash_protocol", "zcash_protocol", ""),
-                           ("zcash_client_sqlite", "zcash_client_sqlite", ""), ("zcash_transparent", "zcash_transparent", ""),
+                           ("zcash_client_sqlite", "zcash_client_sqlite", ""), ("pczt", "pczt", ""), ("zcash_transparent", "zcash_transparent", ""),
                            ("components/zcash_encoding", "zcash_encoding@0.5.0", "")]:
             if f0.startswith(cd + "/"):
                 cdir, crate, feats = cd, cn, ft
